@@ -26,6 +26,7 @@ from typing import Dict, List, Set, Sequence, Tuple, Iterable  # noqa: F401
 from typing import Callable, Optional, Union, Any  # noqa: F401
 
 from ssh_audit.algorithm import Algorithm
+from ssh_audit.utils import Utils
 
 
 class Timeframe:
@@ -62,7 +63,7 @@ class Timeframe:
             if ssh_product not in self.__storage:
                 self.__storage[ssh_product] = [None] * 4
             prev = self[ssh_product][pos]
-            if (prev is None or (prev < ssh_version and pos % 2 == 0) or (prev > ssh_version and pos % 2 == 1)):
+            if (prev is None or (Utils.compare_versions(prev, ssh_version) < 0 and pos % 2 == 0) or (Utils.compare_versions(prev, ssh_version) > 0 and pos % 2 == 1)):
                 self.__storage[ssh_product][pos] = ssh_version
 
     def update(self, versions: List[Optional[str]], for_server: Optional[bool] = None) -> 'Timeframe':
